@@ -83,11 +83,13 @@ class GenericResolver(Generic[K, M]):
             for tp in members_storage.members.values()
         ):
             return members_storage
-        if not hasattr(tp, "__orig_bases__"):
+        # attribute lookup finds `__orig_bases__` of the first parent if class has only non-generic parents
+        orig_bases = getattr(tp, "__dict__", {}).get("__orig_bases__", getattr(tp, "__bases__", ()))
+        if not orig_bases:
             return members_storage
 
         bases_members: dict[K, TypeHint] = {}
-        for base in reversed(tp.__orig_bases__):
+        for base in reversed(orig_bases):
             bases_members.update(self.get_resolved_members(base).members)
 
         return replace(
